@@ -180,6 +180,16 @@ theorem C06_arrayterator_first (n : Nat) (s : PSlice) (hv : validSl n s = true) 
   refine ⟨h, ?_⟩
   rw [← h, Win.pos_length (Win.get_ok (Win.fresh_ok n) (by rw [hc]; exact hv))]
 
+/-- **The handler's answer to `?a[s1],a[s2]`** (a top-level array named twice, both items with a hyperslab, no
+    selection): the constrained dataset holds the one variable `a`, sliced first by `s1` and then — by `sliceBase` on what
+    that left, i.e. `check_hyperslab` against the new shape and `Arrayterator.__getitem__` on the `Arrayterator` in place —
+    by `s2`; an error of either step is the error of the request.  All three responses print this dataset. -/
+theorem C06_repeated_item_answer (ds : Dataset) (b : Base) (sl1 sl2 : List PSlice)
+    (hf : findVar ds.vars b.name = some (.base b)) (h1 : sl1 ≠ []) (h2 : sl2 ≠ []) :
+    constrain ds [.path [(b.name, sl1)], .path [(b.name, sl2)]] []
+      = (sliceBase b sl1 >>= fun b1 => sliceBase b1 sl2 >>= fun b2 =>
+          pure { ds with vars := [.base b2] }) := constrain_repeated ds b sl1 sl2 hf h1 h2
+
 /-- **With a stride in place the composition is not numpy's `x[s1][s2]`** (observation, recorded in
     design_notes/C06.md): on ten values `[1:2:7]` twice reads positions 2 and 6, numpy's `x[1:8:2][1:8:2]` holds
     positions 3 and 7.  The DDS, the data response and the ASCII response still agree — `C06_same_decl`,
@@ -436,6 +446,13 @@ example : dsC.WF := by
     · intro b hb; simp at hb; rcases hb with rfl | rfl <;> exact ⟨rfl, rfl, trivial⟩
   · intro r hr; simp at hr; rcases hr with rfl | rfl | rfl <;> rfl
 
+/-- a member of a grid named again after the grid: the grid is served as the first item left it -/
+example : (constrained dsB cs!"g[1:2],g.x").map Dataset.shown = (constrained dsB cs!"g[1:2]").map Dataset.shown := by
+  decide +kernel
+example : (constrained dsB cs!"g[1:2],g.v").map Dataset.shown
+    = .ok ⟨cs!"d", [.grid cs!"g" { name := cs!"v", ty := cs!"Int32", shape := [2], dims := [cs!"x"], data := [8, 9] }
+        [{ name := cs!"x", ty := cs!"Int32", shape := [2], dims := [cs!"x"], data := [10, 20] }]]⟩ := by
+  decide +kernel
 /-- shorthand for a nested member, a hyperslab on it whose last index lies beyond the extent
     (clipped), a String array sliced, a String column selected by a string comparison -/
 example : (constrained dsC cs!"q[1][0:9],st.in.r[1],t[0:1],s.n&s.n!=\"ab\"").map Dataset.shown
